@@ -36,6 +36,148 @@ class Facts:
         return sorted(f[:-len(".index.json")] for f in os.listdir(self.dir) if f.endswith(".index.json"))
 
 
+_KNOWN_FNS = None
+
+
+def _known_fns():
+    """Functions that existed when the rule packs were written (engine/known_fns.json, frozen by engine/gen_param_table.py). A crate-local function that
+    is NOT in this list is a helper introduced later: it is analysed as part of its callers (inlined), so that extracting a block into a private
+    function - which changes no behaviour - does not hide that block from the rules written against the calling function."""
+    global _KNOWN_FNS
+    if _KNOWN_FNS is None:
+        p = os.path.join(os.path.dirname(os.path.dirname(os.path.abspath(__file__))), "known_fns.json")
+        try:
+            with open(p) as f:
+                _KNOWN_FNS = {k: set(v) for k, v in json.load(f).items()}
+        except OSError:
+            _KNOWN_FNS = {}
+        if os.environ.get("SWIMVERIFY_NO_INLINE") == "1":
+            _KNOWN_FNS = {}
+    return _KNOWN_FNS
+
+
+def _rm_proj(x, lo):
+    if isinstance(x, list) and x and x[0] in ("i",) and len(x) > 1 and isinstance(x[1], int):
+        return [x[0], x[1] + lo] + x[2:]
+    return x
+
+
+def _rm_place(pl, lo):
+    return [pl[0] + lo, [_rm_proj(x, lo) for x in pl[1]]]
+
+
+def _rm_op(op, lo):
+    if isinstance(op, list) and op and op[0] in ("m", "c"):
+        return [op[0], _rm_place(op[1], lo)]
+    return op
+
+
+def _rm_rvalue(rv, lo):
+    k = rv[0]
+    if k == "use":
+        return ["use", _rm_op(rv[1], lo)]
+    if k == "ref":
+        return ["ref", rv[1], _rm_place(rv[2], lo)] + rv[3:]
+    if k == "agg":
+        return ["agg", rv[1], [_rm_op(o, lo) for o in rv[2]]] + rv[3:]
+    if k == "cast":
+        return ["cast", rv[1], _rm_op(rv[2], lo)] + rv[3:]
+    if k == "disc":
+        return ["disc", _rm_place(rv[1], lo)] + rv[2:]
+    if k == "bin":
+        return ["bin", rv[1], _rm_op(rv[2], lo), _rm_op(rv[3], lo)] + rv[4:]
+    if k == "un":
+        return ["un", rv[1], _rm_op(rv[2], lo)] + rv[3:]
+    out = []
+    for x in rv:
+        out.append(_rm_op(x, lo) if isinstance(x, list) and x and x[0] in ("m", "c") else x)
+    return out
+
+
+def _rm_block(bl, lo, bo, ret_to):
+    """copy of a callee block with locals shifted by lo and block indexes by bo; `ret` becomes a jump to ret_to"""
+    nb = {k: v for k, v in bl.items() if k not in ("s", "t")}
+    nb["s"] = [[st[0], _rm_place(st[1], lo), _rm_rvalue(st[2], lo)] + st[3:] if st[0] == "A" else st for st in bl["s"]]
+    t = dict(bl["t"])
+    k = t["k"]
+    for key in ("t", "u", "drop"):
+        if isinstance(t.get(key), int):
+            t[key] = t[key] + bo
+    if k == "call":
+        t["args"] = [_rm_op(a, lo) for a in t.get("args", [])]
+        if t.get("dest") is not None:
+            t["dest"] = _rm_place(t["dest"], lo)
+        if t.get("func") is not None and isinstance(t["func"], list):
+            t["func"] = _rm_op(t["func"], lo)
+    elif k == "switch":
+        t["discr"] = _rm_op(t["discr"], lo)
+        t["arms"] = [[a[0], a[1] + bo] for a in t["arms"]]
+        if isinstance(t.get("otherwise"), int):
+            t["otherwise"] = t["otherwise"] + bo
+    elif k == "drop":
+        t["place"] = _rm_place(t["place"], lo)
+    elif k == "assert":
+        t["cond"] = _rm_op(t["cond"], lo)
+    elif k == "yield":
+        t["value"] = _rm_op(t["value"], lo)
+    elif k == "ret":
+        t = {"line": t.get("line"), "k": "goto", "t": ret_to} if ret_to is not None else {"line": t.get("line"), "k": "unreachable"}
+    nb["t"] = t
+    return nb
+
+
+def inline_new_helpers(crate, raw, defpath, depth=3):
+    """Splice the bodies of crate-local functions that are not in the frozen function list into `raw` (the MIR facts of a known function)."""
+    known = _known_fns().get(crate.name)
+    if not known or defpath not in known or depth <= 0:
+        return raw, []
+    inlined = []
+    out = None
+    i = 0
+    budget = 40
+    while True:
+        blocks = (out or raw)["blocks"]
+        if i >= len(blocks):
+            break
+        t = blocks[i]["t"]
+        cal = t.get("callee") if t.get("k") == "call" else None
+        d = cal.get("def") if isinstance(cal, dict) else None
+        if d and d in crate.by_def and d not in known and d != defpath and "{closure" not in d and budget > 0 and inlined.count(d) < 8 and not blocks[i].get("cleanup"):
+            try:
+                craw = crate._raw(d)
+            except Exception:
+                craw = None
+            if craw is not None and len(craw["blocks"]) <= 400 and len(t.get("args", [])) == craw["argc"]:
+                if out is None:
+                    out = {"def": raw.get("def"), "argc": raw["argc"], "locals": list(raw["locals"]), "vars": [list(v) if isinstance(v, list) else v for v in raw["vars"]], "blocks": [dict(b) for b in raw["blocks"]]}
+                    blocks = out["blocks"]
+                budget -= 1
+                lo = len(out["locals"])
+                out["locals"].extend(craw["locals"])
+                for nm, pl in craw["vars"]:
+                    out["vars"].append([nm + "'" if False else nm, _rm_place(pl, lo)])
+                bo = len(blocks) + 2
+                line = t.get("line")
+                dest = t.get("dest")
+                ret_blk = len(blocks) + 1
+                entry_blk = len(blocks)
+                # entry: bind the parameters
+                blocks.append({"s": [["A", [lo + k + 1, []], ["use", a], line] for k, a in enumerate(t.get("args", []))], "t": {"line": line, "k": "goto", "t": bo}})
+                # return: hand the result to the call's destination and continue where the call continued
+                cont = t.get("t")
+                blocks.append({"s": ([["A", dest, ["use", ["m", [lo, []]]], line]] if dest is not None else []),
+                               "t": ({"line": line, "k": "goto", "t": cont} if isinstance(cont, int) else {"line": line, "k": "unreachable"})})
+                for bl in craw["blocks"]:
+                    blocks.append(_rm_block(bl, lo, bo, ret_blk))
+                nb = dict(blocks[i])
+                nb["t"] = {"line": line, "k": "goto", "t": entry_blk}
+                blocks[i] = nb
+                inlined.append(d)
+        i += 1
+    return (out or raw), inlined
+
+
+
 class Crate:
     def __init__(self, facts, name):
         self.facts = facts
@@ -85,12 +227,39 @@ class Crate:
             e = self.by_def.get(d)
             if e is None:
                 raise AnchorMissing("no body %s in crate %s" % (d, self.name))
-            if self._fh is None:
-                self._fh = open(os.path.join(self.facts.dir, self.name + ".bodies.jsonl"), "rb")
-            self._fh.seek(e["off"])
-            raw = json.loads(self._fh.read(e["len"]))
-            self._bodies[d] = Body(self, e, raw)
+            raw = self._raw(d)
+            raw2, inl = inline_new_helpers(self, raw, d)
+            self._bodies[d] = Body(self, e, raw2)
+            self._bodies[d].inlined_helpers = inl
         return self._bodies[d]
+
+    def _raw(self, d):
+        e = self.by_def.get(d)
+        if e is None:
+            raise AnchorMissing("no body %s in crate %s" % (d, self.name))
+        if self._fh is None:
+            self._fh = open(os.path.join(self.facts.dir, self.name + ".bodies.jsonl"), "rb")
+        self._fh.seek(e["off"])
+        return json.loads(self._fh.read(e["len"]))
+
+    def transparent_helpers(self):
+        """crate-local functions introduced after the freeze that are called from a known function: they are analysed inside their callers"""
+        if getattr(self, "_transparent", None) is None:
+            known = _known_fns().get(self.name)
+            self._transparent = set()
+            if known:
+                new = {b["def"] for b in self.index if "promoted" not in b and b["def"] not in known and "{closure" not in b["def"]}
+                if new:
+                    called = set()
+                    for b in self.index:
+                        if "promoted" in b:
+                            continue
+                        for c in b.get("callees", []) or []:
+                            cd = c if isinstance(c, str) else (c.get("def") if isinstance(c, dict) else None)
+                            if cd in new and b["def"] != cd:
+                                called.add(cd)
+                    self._transparent = called
+        return self._transparent
 
     def fn(self, **kw):
         """The unique body matching the criteria, else AnchorMissing."""
@@ -143,8 +312,11 @@ class Crate:
         return out
 
     def all_bodies(self):
+        skip = self.transparent_helpers()
         for b in self.index:
             if "promoted" in b:
+                continue
+            if skip and (b["def"] in skip or any(b["def"].startswith(h + "::{closure") for h in skip)):
                 continue
             yield self.body(b)
 
